@@ -16,6 +16,7 @@
   `GSys.Reach.ginv`).
 -/
 import Wormhole.Inv.NpFacts
+import Wormhole.Inv.NpOut
 import Wormhole.Inv.Main
 import Wormhole.Props.C17
 
@@ -226,6 +227,51 @@ theorem claimedAnswers_complete {s : Sys} {op : Op} {c : Nat} {t : Time} {id : V
   rw [List.mem_filterMap]
   exact ⟨_, hout, by simp⟩
 
+theorem Op.plain_not_crash (op : Op) : op.plain.isCrash = false := by
+  induction op with
+  | crashIn k op ih => exact ih
+  | _ => rfl
+
+/-- **the ghost sees every `claimed` frame**: a `claimed m` frame in the output of ANY step (a
+    command of any kind, a sweep, a connect, ..., crashed or not) is sent by a `claim` of some
+    name `n`, to the connection the claim arrived on, which is bound to some app `a`; so it is
+    recorded in `claimedAnswers` as `(a, n, m)`. -/
+theorem claimedAnswers_sees_all (s : Sys) (op : Op) {c : Nat} {m : String} {b : Bool}
+    (h : Event.frame c (.claimed m) b ∈ (s.step op).out) :
+    ∃ t id n fresh x a, op.plain = .recv c t id (.claim (some n) fresh) ∧ s.findConn c = some x ∧
+      x.app = some a ∧ (a, n, m) ∈ claimedAnswers s op := by
+  have h' := step_out_sub s op h
+  have hnc := Op.plain_not_crash op
+  generalize hop : op.plain = op' at h' hnc
+  have key : ∀ {P : Event → Prop} {s1 : Sys},
+      OutExt P ({ s with out := [], snaps := [] } : Sys) s1 → Event.frame c (.claimed m) b ∈ s1.out →
+      P (Event.frame c (.claimed m) b) := by
+    intro P s1 ⟨l, e, hl⟩ hm
+    rw [e] at hm
+    exact hl _ (by simpa using hm)
+  cases op' with
+  | crashIn k o => simp [Op.isCrash] at hnc
+  | connect c1 => simp [Sys.step, Sys.stepPlain, Sys.connect, Sys.send, Sys.emit] at h'
+  | drop c1 => simp [Sys.step, Sys.stepPlain, Sys.dropConn] at h'
+  | restart t => simp [Sys.step, Sys.stepPlain, Sys.restart] at h'
+  | sweep now f =>
+    exact absurd (key (Sys.expire_notFrame (s := { s with out := [], snaps := [] }) (now := now) (fault := f)) h')
+      (by simp [NotFrame])
+  | recv c1 t id cmd =>
+    rw [step_recv] at h'
+    by_cases hcmd : ∀ n fresh, cmd ≠ .claim n fresh
+    · exact absurd (key (onMessage_nc c1 t id hcmd) h') (by simp [NotClaimed])
+    · have : ∃ n fresh, cmd = .claim n fresh := by
+        apply Classical.byContradiction
+        intro hne
+        exact hcmd (fun n fresh e => hne ⟨n, fresh, e⟩)
+      obtain ⟨n, fresh, rfl⟩ := this
+      have := key (onMessage_claim_nc (s := { s with out := [], snaps := [] }) c1 t id n fresh
+        (∃ x a nm, s.findConn c1 = some x ∧ x.app = some a ∧ n = some nm)
+        (fun x a nm h1 h2 h3 => ⟨x, a, nm, h1, h2, h3⟩)) h'
+      obtain ⟨rfl, x, a, nm, hx, ha, rfl⟩ := this c m b rfl
+      exact ⟨t, id, nm, fresh, x, a, rfl, hx, ha, claimedAnswers_complete hop hx ha h⟩
+
 /-- **answers and rows.**  If a step (crashed or not) from a synced state with `CInv` carries the
     claimed answer `(a, n, m)` then every nameplate row `(a, n)` of the pre-state AND of the
     post-state has `mailbox = m`. -/
@@ -327,6 +373,59 @@ theorem C03_claimed_step {s : Sys} (hs : s.Synced) (hc : s.db.CInv) {c : Nat} {x
           · cases h3
     exact ⟨_, hnew, rfl, rfl, hpost _ hnew rfl rfl⟩
 
+
+/-- **C03 (step form, crashed step).**  If a `claim` step that is cut short by a crash still got
+    its `claimed m` out, the state the crash leaves (the files as of some commit point of the
+    step) contains the nameplate row `(a, n)` with `mailbox = m`: an answer that was sent is
+    never lost. -/
+theorem C03_claimed_step_crash {s : Sys} (hs : s.Synced) (hc : s.db.CInv) {k c : Nat} {x : Conn}
+    {a n fresh m : String} {t : Time} {id : Val} {b : Bool} (hx : s.findConn c = some x) (ha : x.app = some a)
+    (hout : Event.frame c (.claimed m) b ∈ (s.step (.crashIn k (.recv c t id (.claim (some n) fresh)))).out) :
+    ∃ row ∈ (s.step (.crashIn k (.recv c t id (.claim (some n) fresh)))).db.nameplates,
+      row.app = a ∧ row.name = n ∧ row.mailbox = m := by
+  have hans : (a, n, m) ∈ claimedAnswers s (.crashIn k (.recv c t id (.claim (some n) fresh))) :=
+    claimedAnswers_complete rfl hx ha hout
+  obtain ⟨hpre, hpost⟩ := answer_rows hs hc hans
+  have hout' := step_out_sub s _ hout
+  obtain ⟨_, s1, hE, hstep⟩ := claim_step_ok hx ha hout'
+  have hrel := step_rel hs hc.npOk (.crashIn k (.recv c t id (.claim (some n) fresh)))
+  have hok : (∃ row, s.db.findNameplate a n = some row ∧ m = row.mailbox) ∨
+      (s.db.findNameplate a n = none ∧ m = fresh) := by
+    have := claimNameplate_ok hE
+    exact this
+  -- whatever the crash point, old rows are still there
+  have hsub : ∀ row0 ∈ s.db.nameplates,
+      row0 ∈ (s.step (.crashIn k (.recv c t id (.claim (some n) fresh)))).db.nameplates := by
+    intro row0 h0
+    have hl : s.npLbl (.crashIn k (.recv c t id (.claim (some n) fresh))) =
+        .claim a n (x.side.getD "") fresh t := by
+      simp [Sys.npLbl, hx, cmdLbl, ha]
+    rw [hl] at hrel
+    simp only [Chan.NpRel, Chan.npPart, Prod.mk.injEq] at hrel
+    rcases hrel with h | ⟨_, _, _, h⟩ | ⟨_, h⟩ <;> rw [h.1] <;> simp [h0]
+  rcases hok with ⟨row0, h0, _⟩ | ⟨hnone, _⟩
+  · obtain ⟨m1, m2, m3⟩ := Chan.findNameplate_spec h0
+    exact ⟨row0, hsub row0 m1, m2, m3, hpre row0 m1 m2 m3⟩
+  · -- the nameplate is created by this step: every commit point has the new row
+    obtain ⟨hsn, hfin⟩ := claimNameplate_snaps_new hE hc.bounded hnone (by simp)
+    have hnew : (⟨s.db.nextNp, a, n, fresh⟩ : Nameplate) ∈
+        (s.step (.crashIn k (.recv c t id (.claim (some n) fresh)))).db.nameplates := by
+      obtain ⟨q, _, hsy⟩ := claimNameplate_spec hE hc.bounded
+      have hplain : ({ s with out := [], snaps := [] } : Sys).stepPlain (.recv c t id (.claim (some n) fresh)) =
+          s1.send c (.claimed m) := hstep
+      unfold Sys.step at hout ⊢
+      dsimp only at hout ⊢
+      rw [hplain] at hout ⊢
+      split
+      · simp at hout
+      · rename_i p _ hp
+        have hp' : p ∈ s1.snaps := List.mem_of_getElem? hp
+        rcases hsn p hp' with h | h
+        · simp [Sys.send, Sys.emit, Sys.updConn] at h
+        · exact h
+      · show _ ∈ s1.disk.nameplates
+        rw [← hsy hs.1]; exact hfin
+    exact ⟨_, hnew, rfl, rfl, hpost _ hnew rfl rfl⟩
 
 /-! ## invariant forms: the row of an incarnation never changes; ids are never reused -/
 
@@ -566,11 +665,12 @@ theorem C03_repeat_partial {s : Sys} (hs : s.Synced) (hc : s.db.CInv) {c : Nat} 
 
 /-! ### concrete states for the counterexample and the non-vacuity examples -/
 
-/-- a decidable rendering of `WFOp` for operations that are not crashes -/
+/-- a decidable rendering of `WFOp` -/
 def wfOpB (g : GSys) (op : Op) : Bool :=
   (match op with
    | .connect c => g.sys.conns.all (fun x => x.id ≠ c)
-   | .crashIn _ _ => false
+   | .crashIn _ op' =>
+     !op'.isCrash && (match op' with | .connect c => g.sys.conns.all (fun x => x.id ≠ c) | _ => true)
    | _ => true) &&
   (match op.time? with | some t => decide (g.clock ≤ t) | none => true) &&
   (match op.fresh? with | some f => decide (f ∉ g.used) | none => true)
@@ -583,7 +683,11 @@ theorem wfOp_of_wfOpB {g : GSys} {op : Op} (h : wfOpB g op = true) : g.WFOp op :
     simpa using h1
   · intro t e; rw [e] at h2; simpa using h2
   · intro f e; rw [e] at h3; simpa using h3
-  · intro k op' e; subst e; simp at h1
+  · intro k op' e; subst e
+    simp only [Bool.and_eq_true, Bool.not_eq_true'] at h1
+    refine ⟨h1.1, ?_⟩
+    intro c e; subst e
+    simpa using h1.2
 
 def wfB (g : GSys) : List Op → Bool
   | [] => true
@@ -645,6 +749,33 @@ theorem C03_repeat_counterexample :
   ⟨cxG_reach, wfOp_of_wfOpB (by decide +kernel),
     ⟨{ id := 4, app := some "app", side := some "s1" }, by decide +kernel, rfl, rfl, rfl⟩,
     ⟨⟨1, "app", "7", "mb1"⟩, ⟨1, true, "s1", 11⟩, by decide +kernel, rfl, by decide +kernel, rfl⟩,
+    by decide +kernel⟩
+
+/-- the same two sides claim; the third side's claim is cut by a crash right after its FIRST commit
+    (the nameplate-side row is on disk, the mailbox-side row is not); then "s1" reconnects -/
+def cxOpsCrash : List Op :=
+  [ .connect 1, .recv 1 10 .null (.bind (some "app") (some "s1") none none),
+    .recv 1 11 .null (.claim (some "7") "mb1"),
+    .connect 2, .recv 2 12 .null (.bind (some "app") (some "s2") none none),
+    .recv 2 13 .null (.claim (some "7") "mb2"),
+    .connect 3, .recv 3 14 .null (.bind (some "app") (some "s3") none none),
+    .crashIn 1 (.recv 3 15 .null (.claim (some "7") "mb3")),
+    .connect 4, .recv 4 16 .null (.bind (some "app") (some "s1") none none) ]
+
+def cxGCrash : GSys := (GSys.init {} 0).run cxOpsCrash
+
+/-- **why `C03_repeat_partial` needs the guard on `nameplate_sides` too** (K-crowded-rejoin after a
+    crash): in the reachable state `cxGCrash` the mailbox has TWO side rows before and after the
+    repeated claim of "s1", the nameplate has three, and the answer is `crowded`. -/
+theorem C03_repeat_counterexample_crash :
+    cxGCrash.Reach ∧
+    cxGCrash.WFOp (.recv 4 17 (.int 1) (.claim (some "7") "mb4")) ∧
+    (cxGCrash.sys.db.mbSidesOf "mb1").length = 2 ∧ (cxGCrash.sys.db.npSidesOf 1).length = 3 ∧
+    ((cxGCrash.sys.step (.recv 4 17 (.int 1) (.claim (some "7") "mb4"))).db.mbSidesOf "mb1").length = 2 ∧
+    (cxGCrash.sys.step (.recv 4 17 (.int 1) (.claim (some "7") "mb4"))).frames =
+      [.frame 4 (.ack (.int 1)) true, .frame 4 (.error "crowded") true] :=
+  ⟨GSys.reach_run (.init {} 0) cxOpsCrash (wf_of_wfB _ _ (by decide +kernel)),
+    wfOp_of_wfOpB (by decide +kernel), by decide +kernel, by decide +kernel, by decide +kernel,
     by decide +kernel⟩
 
 /-! ## non-vacuity -/
@@ -722,7 +853,9 @@ example (hreach : ∀ g : GSys, g.Reach → g.GInv) : "mb1" ≠ "mb5" :=
 example (hreach : ∀ g : GSys, g.Reach → g.GInv) := C03_npMbInjective_reach hreach exG_reach
 
 #print axioms C03_claimed_step
+#print axioms C03_claimed_step_crash
 #print axioms answer_rows
+#print axioms claimedAnswers_sees_all
 #print axioms C03_mailbox_never_changes
 #print axioms C03_nextNp_mono
 #print axioms C03_new_row
@@ -735,5 +868,6 @@ example (hreach : ∀ g : GSys, g.Reach → g.GInv) := C03_npMbInjective_reach h
 #print axioms C03_distinct_answers
 #print axioms C03_repeat_partial
 #print axioms C03_repeat_counterexample
+#print axioms C03_repeat_counterexample_crash
 
 end Wormhole
